@@ -294,6 +294,17 @@ def alignment_errors(d, spec, views, full=True):
             stack.append((x, y, f'{path}[{i}]'))
     if not full:
         return errs
+    # nested numbers: the hierarchical view parsed back and bound to the spec
+    try:
+        nested = d.to_numbers(flatten=False)
+        back = pg.DNA.parse(nested)
+        back.use_spec(spec)
+    except Exception as e:  # pylint: disable=broad-except
+        back = e
+    if isinstance(back, Exception) or back != d or back.to_numbers() != numbers:
+        errs.append(('nested-numbers', f'DNA.parse(to_numbers(flatten=False)) = {nested!r:.120} gives '
+                     f'{back!r:.160}, original {d!r:.160}'))
+        return errs
     for kt, vt, mk in views:
         try:
             want = rebuilt.to_dict(key_type=kt, value_type=vt, multi_choice_key=mk)
